@@ -94,6 +94,12 @@ static long long hugeTimeout(unsigned long long x) {
     return b + (long long)((x >> 8) % 400000000ULL);   /* plus up to 0.4 s */
 }
 
+/* every negative timeout means "never time out" (not only -1) */
+static long long infiniteTimeout(unsigned long long x) {
+    static const long long neg[] = { -1, -1, -1, -2, -1000000LL, -5000000000LL, -1099511627776LL, (-9223372036854775807LL - 1), -4294967296LL, -1000000001LL };
+    return neg[x % 10];
+}
+
 typedef struct { int t, role, scenario, naddr; unsigned long long seed; unsigned* addrs; unsigned target; int iters; } TArg;
 
 static void* threadMain(void* p) {
@@ -102,7 +108,7 @@ static void* threadMain(void* p) {
     if (a->scenario == 0) {
         if (a->role == 0) { /* waiter: canonical futex loop, infinite timeout, no rescue */
             unsigned addr = a->addrs[a->t % a->naddr];
-            for (;;) { U32 e = fx_load32(child[a->t], addr); if (e >= a->target) break; doWait(a->t, addr, e, -1, 0, 0); }
+            for (;;) { U32 e = fx_load32(child[a->t], addr); if (e >= a->target) break; doWait(a->t, addr, e, infiniteTimeout(rnd()), 0, 0); }
         } else { /* notifier */
             for (i = 0; i < (int)a->target; i++) { int k; for (k = 0; k < a->naddr; k++) { doAdd(a->t, a->addrs[k]); doNotify(a->t, a->addrs[k], 0xffffffffu, 0); }
                 if (delayMode && rnd() % 3 == 0) sched_yield(); }
@@ -115,7 +121,7 @@ static void* threadMain(void* p) {
                 unsigned long long exp = cur; long long timeout; unsigned r = rnd() % 12;
                 if (is64) { addr &= ~7u; cur = fx_load32(child[a->t], addr + (unsigned)off); exp = (unsigned long long)cur | ((unsigned long long)fx_load32(child[a->t], addr + (unsigned)off + 4) << 32); }
                 if (rnd() % 5 == 0) exp = exp + 1 + rnd() % 3;      /* deliberately wrong expectation */
-                timeout = r < 3 ? -1 : r < 5 ? 0 : r < 8 ? (long long)(200000 + rnd() % 3000000) : r < 10 ? (long long)(rnd() % 50000) : hugeTimeout(rnd());
+                timeout = r < 3 ? infiniteTimeout(rnd()) : r < 5 ? 0 : r < 8 ? (long long)(200000 + rnd() % 3000000) : r < 10 ? (long long)(rnd() % 50000) : hugeTimeout(rnd());
                 doWait(a->t, addr, exp, timeout, is64, off);
             }
         } else {
